@@ -305,9 +305,22 @@ def in_type_inference(e):
 
 
 def msg_key(msg):
+    """Root-cause key of a type error message: the two types that met."""
+    m = re.search(r'implied to be (.*) and simultaneously (.*), which is impossible',
+                  msg, re.S)
+    if m:
+        return '~'.join(sorted([kind_of(m.group(1).strip()),
+                                kind_of(m.group(2).strip())]))
+    if 'does not have field' in msg:
+        return 'missing_field'
+    if 'belongs to a list' in msg:
+        return 'list_in_list'
+    if 'inconcistent rules' in msg or 'does not have argument' in msg:
+        return 'predicate_fields'
+    if 'is not a function' in msg:
+        return 'not_a_function'
     lines = [l for l in msg.split('\n') if l.strip()]
-    last = lines[-1] if lines else ''
-    return common.msg_class(last)[:60]
+    return common.msg_class(lines[-1] if lines else '')[:40]
 
 
 def inhabits(v, t, depth=0):
